@@ -3,6 +3,7 @@ package smoke
 import (
 	"context"
 	"encoding/binary"
+	"encoding/json"
 	"errors"
 	"fmt"
 	"sort"
@@ -201,6 +202,15 @@ func Dynamic() {
 	vx.Assert("sem.sprintf_flags", fmt.Sprintf("%05d|%-4s|%x|%q", 42, "ab", 255, "z") == `00042|ab  |ff|"z"`)
 	vx.Assert("sem.sprintf_bad_verb", fmt.Sprintf("a%2Fb_%s", "us-west-2") == fmt.Sprintf("a%3Fb_%s", "us-west-2") &&
 		fmt.Sprintf("a%2Fb_%s", "us-west-2") == "a%!F(string=us-west-2)b_%!s(MISSING)")
+	// context cancellation and atomic.Value (modelled as a cell)
+	cctx, cancel := context.WithCancel(context.Background())
+	vx.Assert("sem.ctx_live", cctx.Err() == nil)
+	cancel()
+	vx.Assert("sem.ctx_cancelled", errors.Is(cctx.Err(), context.Canceled) && !errors.Is(cctx.Err(), context.DeadlineExceeded))
+	var av atomic.Value
+	vx.Assert("sem.atomic_value_empty", av.Load() == nil)
+	av.Store(5)
+	vx.Assert("sem.atomic_value_holds", av.Load().(int) == 5 && av.Swap(6).(int) == 5 && av.Load().(int) == 6)
 	// sync.Pool: Get returns a pooled object or a new one, never anything else
 	pool := sync.Pool{New: func() any { return &inner{a: -1} }}
 	first := pool.Get().(*inner)
@@ -348,4 +358,40 @@ func Concurrency() {
 	go func() { res <- "pong" }()
 	vx.Assert("sem.unbuffered_rendezvous", <-res == "pong")
 	vx.Reach("sem.concurrency_end")
+}
+
+type jsonInner struct {
+	KeyId   string `json:"KeyId"`
+	Created int64  `json:"Created"`
+}
+
+type jsonDoc struct {
+	ID      string     `json:"-"`
+	Revoked bool       `json:"Revoked,omitempty"`
+	Created int64      `json:"Created"`
+	Key     []byte     `json:"Key"`
+	Parent  *jsonInner `json:"ParentKeyMeta,omitempty"`
+}
+
+// JSONText: encoding/json over concrete text that the model did not produce itself (rows written by something else,
+// corrupted columns): parsed for real.
+func JSONText() {
+	var d *jsonDoc
+	vx.Assert("sem.json_null_leaves_pointer_nil", json.Unmarshal([]byte("null"), &d) == nil && d == nil)
+	vx.Assert("sem.json_null_with_spaces", json.Unmarshal([]byte(" null "), &d) == nil && d == nil)
+	err := json.Unmarshal([]byte(`{"Created":7,"Key":"AAEC","ParentKeyMeta":{"KeyId":"k","Created":3},"Revoked":true,"Extra":[1,2]}`), &d)
+	vx.Assert("sem.json_object", err == nil && d != nil && d.Created == 7 && d.Revoked && len(d.Key) == 3 && d.Key[1] == 1 && d.Key[2] == 2 &&
+		d.Parent != nil && d.Parent.KeyId == "k" && d.Parent.Created == 3 && d.ID == "")
+	var e *jsonDoc
+	vx.Assert("sem.json_case_insensitive_members", json.Unmarshal([]byte(`{"created":9,"KEY":"AA=="}`), &e) == nil && e.Created == 9 && len(e.Key) == 1)
+	var f *jsonDoc
+	vx.Assert("sem.json_empty_object", json.Unmarshal([]byte(`{}`), &f) == nil && f != nil && f.Parent == nil && f.Key == nil)
+	var g *jsonDoc
+	vx.Assert("sem.json_syntax_errors", json.Unmarshal([]byte(`{`), &g) != nil && json.Unmarshal([]byte(``), &g) != nil && json.Unmarshal([]byte(`tru`), &g) != nil)
+	vx.Assert("sem.json_wrong_shapes", json.Unmarshal([]byte(`[]`), &g) != nil && json.Unmarshal([]byte(`"x"`), &g) != nil && json.Unmarshal([]byte(`7`), &g) != nil)
+	var h *jsonDoc
+	vx.Assert("sem.json_bad_base64_and_types", json.Unmarshal([]byte(`{"Key":"!!!"}`), &h) != nil && json.Unmarshal([]byte(`{"Created":"soon"}`), &h) != nil)
+	var k *jsonDoc
+	vx.Assert("sem.json_null_members", json.Unmarshal([]byte(`{"Key":null,"ParentKeyMeta":null,"Created":1}`), &k) == nil && k.Key == nil && k.Parent == nil && k.Created == 1)
+	vx.Reach("sem.jsontext_end")
 }
